@@ -1,12 +1,11 @@
 SPECIFICATION Spec
 CONSTANTS
-  MaxClock = 3
+  MaxClock = 1
   MaxSnaps = 2
-  MaxCheckouts = 2
-  MaxEdits = 3
+  MaxCheckouts = 1
+  MaxEdits = 1
   Variant = "lt"
   Restores = {"RestoreOld1", "RestoreOld2"}
-  Emit = FALSE
-INVARIANTS Inv_Seen Inv_Time
-VIEW View
+  Emit = TRUE
+INVARIANTS Inv_Seen EmitInv
 CHECK_DEADLOCK FALSE
